@@ -23,6 +23,9 @@
      level: an error reply was handed to the request sender of k and Serve waits
      for it to be closed)
    * callbacks: cb_pres (HandleUserPresence, by address), cb_inv (HandleInvite).
+   * SDead: HandlePresence returned a decoding error and Serve ended; nothing is
+     delivered any more. (The model still lets calls start and end by
+     cancellation there; the harness ends a case at that point.)
 
    Labels are the atomic steps a schedule is made of; the harness forces them on
    the real code with the `verif` yield points and records them. *)
@@ -43,7 +46,16 @@ Record call := mkcall {
 Record chan := mkchan {
   ch_made : bool; ch_entry : bool; ch_joined : bool; ch_jq : list cid; ch_dep : bool }.
 
-Inductive serve := SIdle | SOffer (k : cid) | SAwait (k : cid).
+(* SDead: a handler returned an error to the Serve loop, which ended *)
+Inductive serve := SIdle | SOffer (k : cid) | SAwait (k : cid) | SDead.
+
+(* the child elements of a normal message, as far as the client's handler and
+   the pattern it is registered for can tell them apart *)
+Inductive child :=
+| CInvite (i : nat)   (* <x xmlns='http://jabber.org/protocol/muc#user'> with an <invite/> child: mediated invitation number i *)
+| CUserX              (* a muc#user <x/> without an invite child (a declined invitation, a status notification, ...) *)
+| CForeignX           (* an <x/> element of another namespace (jabber:x:conference, jabber:x:delay, ...) *)
+| COther.             (* any other child element *)
 
 Record state := mkstate {
   calls : cid -> option call;
@@ -57,7 +69,9 @@ Inductive stanza :=
 | PresAvail (a : addr)      (* available presence with a muc#user payload from occupant address a *)
 | PresUnavail (a : addr)    (* unavailable presence with a muc#user payload from a *)
 | ErrReply (k : cid)        (* error presence carrying the id of the request of call k *)
-| Invite (i : nat)          (* message carrying mediated invitation number i *)
+| PresBad (a : addr)        (* available or unavailable presence from a whose muc#user payload does not decode
+                               (unknown role or affiliation value, malformed jid) *)
+| Msg (cs : list child)     (* normal message with these child elements *)
 | Other.                    (* anything else *)
 
 Inductive label :=
@@ -92,8 +106,8 @@ Definition set_srv (s : state) (v : serve) : state :=
 Definition log_pres (s : state) (a : addr) : state :=
   mkstate (calls s) (ncalls s) (chans s) (srv s) (cb_pres s ++ [a]) (cb_inv s).
 
-Definition log_inv (s : state) (i : nat) : state :=
-  mkstate (calls s) (ncalls s) (chans s) (srv s) (cb_pres s) (cb_inv s ++ [i]).
+Definition log_invs (s : state) (l : list nat) : state :=
+  mkstate (calls s) (ncalls s) (chans s) (srv s) (cb_pres s) (cb_inv s ++ l).
 
 Definition with_phase (c : call) (p : phase) : call := mkcall (c_kind c) (c_addr c) p (c_done c) (c_replied c).
 Definition with_done (c : call) : call := mkcall (c_kind c) (c_addr c) (c_phase c) true (c_replied c).
@@ -114,6 +128,7 @@ Definition serve_eqb (x y : serve) : bool :=
   | SIdle, SIdle => true
   | SOffer a, SOffer b => Nat.eqb a b
   | SAwait a, SAwait b => Nat.eqb a b
+  | SDead, SDead => true
   | _, _ => false
   end.
 Definition kind_eqb (x y : kind) : bool :=
@@ -141,6 +156,28 @@ Definition take (s : state) (a : addr) : state :=
   | k :: rest => set_srv (set_chan s a (with_jq ch rest)) (SOffer k)
   end.
 
+(* ---- a normal message: the multiplexer invokes the client's handler once for
+        every child element that matches the pattern HandleClient registered
+        (the muc#user x); every invocation decodes the WHOLE message into one
+        Invitation field, so the last muc#user x wins and one without an invite
+        child leaves it empty; HandleInvite is called if it is not empty ---- *)
+Definition is_userx (c : child) : bool :=
+  match c with CInvite _ | CUserX => true | _ => false end.
+
+Fixpoint decoded (cs : list child) (acc : option nat) : option nat :=
+  match cs with
+  | [] => acc
+  | CInvite i :: r => decoded r (Some i)
+  | CUserX :: r => decoded r None
+  | _ :: r => decoded r acc
+  end.
+
+Definition msg_calls (cs : list child) : list nat :=
+  match decoded cs None with
+  | Some i => repeat i (length (filter is_userx cs))
+  | None => []
+  end.
+
 Definition deliver (s : state) (st : stanza) : state :=
   match st with
   | PresAvail a => if ch_entry (chans s a) then take s a else s
@@ -157,7 +194,11 @@ Definition deliver (s : state) (st : stanza) : state :=
           end
       | None => s
       end
-  | Invite i => log_inv s i
+  | PresBad a =>
+      (* the table is consulted first: no entry, no decoding; with an entry the
+         decoding error is returned to the Serve loop *)
+      if ch_entry (chans s a) then set_srv s SDead else s
+  | Msg cs => log_invs s (msg_calls cs)
   | Other => s
   end.
 
